@@ -7,8 +7,8 @@ D1 panic reachability: every panic edge (overflow / bounds Assert, unwrap / expe
    unreachable by the class/range domain (absint) or listed in the documented-panic table.
 D2 no Ok(NaN): on every Ok path each float bound of the returned interval has an abstract
    value that excludes NaN.
-D3 no inverted Ok: two-sided results are built by the checked constructor only (C14
-   who-may-construct).
+D3 no inverted Ok: two-sided results are built by the checked constructor only, or by a function proven to
+   keep low <= high (who-may-construct, sa/construct.py, the rule C14 also applies).
 D4 error table on the state-based producers: n < 2 => TooFewSamples; non-finite statistics =>
    InvalidInputData (Arithmetic, Geometric, Harmonic, Paired, Unpaired).
 D5 unequal paired lengths: Paired::extend / Paired::ci return Ok only on paths that saw both samples end
@@ -161,6 +161,12 @@ def run_cfg(chk, facts, cfg):
     sm = StatsModel(facts)
     if not chk.anchor('Interval / Confidence models' + sfx, im if (im.ok() and cm.ok) else None):
         return
+    # D3: no Ok result with its lower bound above its upper bound - every two-sided interval of the crate is written by
+    # the checked constructor, by arithmetic on well-formed operands, or by a function proven to keep low <= high
+    from ..construct import obligation as who_may_construct
+    nsites = who_may_construct(chk, PID, facts, sfx, im, cfg)
+    if cfg == 'default':
+        chk.floor('two-sided-construction-sites', nsites, 4)
     eps = entry_points(facts)
     n_edges = 0
     n_entries = 0
